@@ -7,6 +7,7 @@ import (
 	"os"
 
 	"github.com/bytemare/secp256k1/internal/verif/ev"
+	"github.com/bytemare/secp256k1/internal/verif/sched"
 	"github.com/bytemare/secp256k1/internal/verif/tracechk"
 	"github.com/bytemare/secp256k1/internal/verif/verifrt"
 )
@@ -17,7 +18,8 @@ type part struct {
 }
 
 var parts = map[string]part{
-	"C19": {"C19", tracechk.C19},
+	"C19":      {"C19", tracechk.C19},
+	"C16sched": {"C16", sched.C16sched},
 }
 
 func main() {
@@ -50,6 +52,8 @@ func main() {
 		switch os.Args[2] {
 		case "C19":
 			ok, msg = tracechk.ReplayC19(doc.Replay)
+		case "C16":
+			ok, msg = sched.ReplayC16(sched.Case(doc.Replay))
 		default:
 			fmt.Fprintln(os.Stderr, "no replayer for", os.Args[2])
 			os.Exit(2)
